@@ -9,10 +9,15 @@ from filter_functions import gradient, numeric, util
 
 from .. import gens
 
-THEOREMS = []          # filled when the Lean part (frame + abort traces) is integrated
-LEAN_MODULES = ['FFVerif.Props.C07']
-GEN_SITES = ['cache:cleanup']
-COMPONENTS = ['effects']
+THEOREMS = '''trace_last trace_head trace_ne_nil abort_preserves_Inv abort_then_fresh stepOutcome_mem
+stepOutcome_Inv runWithFailures_preserves_Inv failures_reachable_Inv failures_then_fresh
+runWithFailures_done hstep_other_unchanged hstepOutcome_length hstepEvent_preserves
+heap_failures_Inv heap_failures_then_fresh async_window_not_coherent frame_all_histories
+frame_violation_witness frame_iff frame_after_return apiCall_all_complete apiCall_ofName
+declared_frame_safe inPlace_calls never_returned_or_definition api_history_frame
+api_history_frame_kind'''.split()
+GEN_SITES = ['cache:cleanup', 'cache:method_bodies']
+COMPONENTS = ['effects', 'abort_trace']
 RULES = ['histories of public calls (constructors, getters, cachers, clean-up, copies, concatenate, '
          'concatenate_periodic, extend, remap, infidelity, decay amplitudes, cumulant function, '
          'error transfer matrix, derivatives, Basis constructors / from_partial / expand, tensor '
@@ -67,7 +72,7 @@ def check_history(ctx, case):
     T = Tracker()
     n_dt = int(rng.integers(1, 4))
     c_op = [gens.rand_herm(rng, d) for _ in range(2)]
-    n_op = [gens.rand_herm(rng, d, traceless=bool(rng.integers(0, 2))) for _ in range(2)]
+    n_op = [gens.rand_herm(rng, d, traceless=bool(rng.random() < 0.3)) for _ in range(2)]
     c_co = [rng.standard_normal(n_dt) for _ in range(2)]
     n_co = [np.full(n_dt, rng.uniform(0.5, 1.5)) for _ in range(2)]
     dt = rng.uniform(0.2, 1.0, n_dt)
@@ -210,8 +215,116 @@ def check_history(ctx, case):
                  f'history {log[:12]}…: {probs[:3]}')
 
 
-def correspondence(ctx):
+class Boom(RuntimeError):
     pass
+
+
+def correspondence(ctx):
+    """(1) declared write sets (Lean table `Effects.declaredWrites`) vs measured ones for the whole
+    public API; (2) fault injection: numerical routines are made to raise at their k-th call
+    inside a public operation; the observed abort state must be one of the raise-point states of the
+    Lean trace of that operation, and all follow-up results must equal those of a fresh pulse."""
+    import copy as _copy
+    import itertools
+    from filter_functions import pulse_sequence
+    from ..common import driver
+    from . import c07, c18_effects
+    res = c18_effects.run(5 + ctx.seed)
+    names = sorted(res)
+    outs = driver(['effects list'] + [f'effects {n}' for n in names])
+    allnames = outs[0][3:].split(';')
+    bad = []
+    for n, o in zip(names, outs[1:]):
+        decl = set() if not o.startswith('ok ') or o[3:] == '-' else set(o[3:].split(','))
+        extra = res[n] - decl
+        ctx.count(('effects', n))
+        if extra or not o.startswith('ok '):
+            bad.append((n, sorted(extra), o[:40]))
+            if res[n] & {'argArray', 'argBasisData', 'returned', 'pulseDef'}:
+                ctx.fail('write_set', {'api': n}, sorted(res[n]), sorted(decl), {'api': n},
+                         f'{n} modified caller-owned data: {sorted(res[n])}')
+    ctx.stat('api_calls_measured', len(names))
+    ctx.stat('api_calls_not_exercised', len([n for n in allnames if n not in res]))
+    ctx.oblige('correspondence:effects', 'correspondence', not bad,
+               f'{len(bad)} API calls write more than declared: {bad[:3]}')
+
+    TARGETS = [(numeric, 'diagonalize'), (numeric, 'calculate_control_matrix_from_scratch'),
+               (numeric, 'calculate_filter_function'),
+               (numeric, 'calculate_second_order_filter_function'),
+               (numeric, 'calculate_pulse_correlation_filter_function'),
+               (pulse_sequence, 'liouville_representation'), (util, 'cexp'),
+               (numeric, '_get_integrand'),
+               (gradient, 'calculate_derivative_of_control_matrix_from_scratch'),
+               (util, 'get_indices_from_identifiers'), (util, 'integrate'),
+               (gradient, 'calculate_filter_function_derivative')]
+    rng = ctx.rng('abort')
+    reqs = []
+    for seed in range(2 if ctx.tier == 'quick' else 12):
+        pc = bool(seed % 3 == 0)
+        world = c07.World(rng, pc=pc)
+        pcg = int(rng.integers(1, 4)) if pc else None
+        for trial in range(3 if ctx.tier == 'quick' else 6):
+            objs = [world.fresh(pcg, 'generalized') if pc else world.fresh()]
+            hist = [h for h in c07.gen_history(rng, world, int(rng.integers(0, 5)))
+                    if h.startswith('0@')]
+            for h in hist:
+                c07.apply_op(world, objs, h)
+            p0 = objs[0]
+            op = None
+            while op is None:
+                cand = c07.gen_history(rng, world, 1)
+                if cand and cand[0].startswith('0@'):
+                    op = cand[0]
+            init = world.observe(p0)
+            for (mod, name), k in itertools.product(TARGETS, (1, 2, 3)):
+                p = _copy.deepcopy(p0)
+                orig = getattr(mod, name)
+                state = {'n': 0}
+
+                def wrapper(*a, _orig=orig, _state=state, _k=k, _name=name, **kw):
+                    _state['n'] += 1
+                    if _state['n'] == _k:
+                        raise Boom(_name)
+                    return _orig(*a, **kw)
+                setattr(mod, name, wrapper)
+                try:
+                    try:
+                        c07.apply_op(world, [p], op)
+                        raised = False
+                    except Boom:
+                        raised = True
+                finally:
+                    setattr(mod, name, orig)
+                if not raised:
+                    continue
+                obs = world.observe(p)
+                g = int(rng.integers(1, 4))
+                follow = None
+                for tok in (f'0@getFF:{g}:g:0:0', f'0@getFF:{g}:f:1:0', f'0@deriv:{g}',
+                            f'0@cumulant:{g}:1'):
+                    _, ret, prob = c07.apply_op(world, [p], tok)
+                    if prob or not ret.endswith('+'):
+                        follow = (tok, ret, prob)
+                        break
+                reqs.append((f'hist={hist} op={op} inject={name}#{k}', init, op.split('@')[1], obs,
+                             follow))
+                ctx.count(('abort', seed, trial, name, k, op))
+    lines = sorted(set(f'cachetrace {",".join(r[1].split())} {r[2]}' for r in reqs))
+    ans = dict(zip(lines, driver(lines))) if lines else {}
+    notin = []
+    for r in reqs:
+        a = ans[f'cachetrace {",".join(r[1].split())} {r[2]}']
+        states = a[3:].split(';') if a.startswith('ok ') else []
+        if r[3] not in states:
+            notin.append((r[0], r[3], states[:3]))
+        if r[4]:
+            ctx.fail('usable_after_failure', {'what': r[0]}, str(r[4]), 'fresh value', {},
+                     f'after an exception ({r[0]}) a later request is wrong: {r[4]}')
+    ctx.stat('aborts_observed', len(reqs))
+    ctx.oblige('correspondence:abort_trace', 'correspondence', not notin,
+               f'{len(notin)} of {len(reqs)} abort states are not raise-point states of the model '
+               f'trace: {notin[:1]}')
+    ctx.sample({'abort': reqs[0][0] if reqs else None})
 
 
 def replay(ctx, check, case):
@@ -220,7 +333,7 @@ def replay(ctx, check, case):
 
 def search(ctx, deep=False):
     rng = ctx.rng('deep' if deep else 'search')
-    n = {('quick', False): 12, ('quick', True): 80, ('thorough', False): 200,
+    n = {('quick', False): 30, ('quick', True): 120, ('thorough', False): 200,
          ('thorough', True): 600}[(ctx.tier, deep)]
     for i in range(n):
         case = {'seed': int(rng.integers(0, 2**31)), 'length': int(rng.integers(8, 30))}
